@@ -89,6 +89,19 @@ pub fn exec(line: &str) -> String {
             compile_op(&text!(name), &srcs, false)
         }
         ["p_c16h", mode, steps @ ..] => build_history(mode, steps),
+        ["sub", q, t, a, key, i] => {
+            match json_shape::verif::subtype_query(q, t, &shape!(a), &text!(key), i.parse().unwrap_or(0)) {
+                Some(x) => b(x),
+                None => "n/a".into(),
+            }
+        }
+        ["tupof", a, types @ ..] => {
+            let mut ts = Vec::new();
+            for t in types {
+                ts.push(shape!(t));
+            }
+            b(shape!(a).is_tuple_of(&ts))
+        }
         ["p_c16", name, rest @ ..] => {
             let mut srcs = Vec::new();
             for h in rest {
